@@ -14,9 +14,13 @@ EXPLANATION = ("Primitive writers are proved byte-identical to the KMIP 9.1 enco
 
 def units(ctx):
     us = contract_units("C02", MODULES, ctx)
-    from vf import ttlvunits, bounded
+    from vf import ttlvunits, bounded, facts
+    if facts.mutable_defaults_present():
+        # the native parametric runs below share state through such a default (and may not end):
+        # the fact unit reports the violation, the native units are not built
+        return us + facts.units(["wrappers_truthy", "no_mutable_defaults"], ctx)
     us += ttlvunits.make_units(ctx, "C02")
     us += bounded.units(["biginteger", "bit_length"], ctx)
     from vf import facts
-    us += facts.units(["wrappers_truthy"], ctx)
+    us += facts.units(["wrappers_truthy", "no_mutable_defaults"], ctx)
     return us
